@@ -201,7 +201,16 @@ func genParserSpec(r *RNG, typ, class string) ParserSpec {
 			p.BufferSize = r.Range(1, 16)
 		}
 	}
+	if r.Chance(0.02) && class != "tiny" {
+		// all-default geometry (8 MiB buffer/window, 32 KiB shrink, 128 KiB
+		// blocks); inputs stay small, so the buffer never fills, but the
+		// default code paths (table sizes, margins, grow) are exercised
+		p.BufferSize = 0
+	}
 	bs := p.BufferSize
+	if bs == 0 {
+		bs = 4096 // for the relative choices below only
+	}
 	// ShrinkSize < BufferSize (0 => default BS/2)
 	switch r.Intn(6) {
 	case 0:
@@ -221,6 +230,12 @@ func genParserSpec(r *RNG, typ, class string) ParserSpec {
 	}
 	p.WindowSize = relTo(r, bs, true)
 	p.BlockSize = relTo(r, bs, true)
+	if p.BufferSize == 0 {
+		p.ShrinkSize = 0
+		if r.Chance(0.5) {
+			p.WindowSize = 0
+		}
+	}
 	if r.Chance(0.25) {
 		p.BlockSize = 1 + r.Intn(bs/2+2)
 	}
@@ -620,6 +635,9 @@ func pickClass(r *RNG, tier string, allowLarge bool) string {
 }
 
 func inputLenFor(r *RNG, bs int, class string) int {
+	if bs > 1<<20 {
+		return r.Intn(6000) // default geometry: never filled
+	}
 	mult := []int{0, 1, 1, 2, 3, 4, 6}[r.Intn(7)]
 	n := bs*mult + r.Intn(bs+1)
 	if class == "medium" && n > 12000 {
